@@ -27,6 +27,7 @@ func NewMessageCache(gossip, history int) *MessageCache {
 	return &MessageCache{
 		msgs:    make(map[string]*Message),
 		peertx:  make(map[string]map[peer.ID]int),
+		lastPut: make(map[string]uint64),
 		history: make([][]CacheEntry, history),
 		gossip:  gossip,
 		msgID: func(msg *Message) string {
@@ -41,6 +42,11 @@ type MessageCache struct {
 	history [][]CacheEntry
 	gossip  int
 	msgID   func(*Message) string
+
+	// shifts counts the calls to Shift; lastPut is the value of shifts at the
+	// most recent Put of each cached message ID.
+	shifts  uint64
+	lastPut map[string]uint64
 }
 
 func (mc *MessageCache) SetMsgIdFn(msgID func(*Message) string) {
@@ -55,6 +61,7 @@ type CacheEntry struct {
 func (mc *MessageCache) Put(msg *Message) {
 	mid := mc.msgID(msg)
 	mc.msgs[mid] = msg
+	mc.lastPut[mid] = mc.shifts
 	mc.history[0] = append(mc.history[0], CacheEntry{mid: mid, topic: msg.GetTopic()})
 }
 
@@ -94,9 +101,15 @@ func (mc *MessageCache) GetGossipIDs(topic string) []string {
 func (mc *MessageCache) Shift() {
 	last := mc.history[len(mc.history)-1]
 	for _, entry := range last {
+		// a message that was put again later stays until that entry expires
+		if mc.lastPut[entry.mid]+uint64(len(mc.history)-1) > mc.shifts {
+			continue
+		}
 		delete(mc.msgs, entry.mid)
 		delete(mc.peertx, entry.mid)
+		delete(mc.lastPut, entry.mid)
 	}
+	mc.shifts++
 	for i := len(mc.history) - 2; i >= 0; i-- {
 		mc.history[i+1] = mc.history[i]
 	}
